@@ -429,7 +429,13 @@ func runOne(name string, cfg CheckCfg, tier, repo, only string, workers int, noN
 	}
 	// known finding witnesses
 	for _, k := range known {
-		if k.Property == id && k.Status == "open" && len(k.Witness) > 0 {
+		inPart := false
+		for _, hc := range cfg.Harnesses {
+			if hc.Name == k.Harness {
+				inPart = true
+			}
+		}
+		if k.Property == id && k.Status == "open" && len(k.Witness) > 0 && inPart {
 			rep := 0
 			for _, hc := range cfg.Harnesses {
 				if hc.Name == k.Harness {
@@ -500,7 +506,7 @@ func runOne(name string, cfg CheckCfg, tier, repo, only string, workers int, noN
 				}
 			}
 			for _, k := range known {
-				if k.Property == id && k.Status == "open" && len(k.Witness) > 0 {
+				if _, has := byID["known:"+k.ID]; k.Property == id && k.Status == "open" && len(k.Witness) > 0 && has {
 					r, ok := byID["known:"+k.ID]
 					if ok && (r.Outcome == "assert" || r.Outcome == "panic") {
 						fmt.Printf("KNOWN-FINDING: property=%s %s [%s]\n", id, k.What, k.ID)
